@@ -435,9 +435,9 @@ fn call(f: Func, args: &[Node], at: NV) -> R {
         Asin => approx(q, x.asin()),
         Acos => approx(q, x.acos()),
         Atan => approx(q, x.atan()),
-        Asinh => approx(q, x.asinh()),
-        Acosh => approx(q, x.acosh()),
-        Atanh => approx(q, x.atanh()),
+        Asinh => approx(q, crate::ev_f64::asinh_acc(x)),
+        Acosh => approx(q, crate::ev_f64::acosh_acc(x)),
+        Atanh => approx(q, crate::ev_f64::atanh_acc(x)),
         Atan2 if zero_uncertain(vs[0]) || zero_uncertain(vs[1]) => num(x.atan2(vs[1].v.f()), Q::Skip),
         Atan2 => approx(q, x.atan2(vs[1].v.f())),
         Ln => approx(q, x.ln()),
